@@ -228,6 +228,84 @@ def mon_deleted_absent(steps, meta):
 wk.MONITORS["deleted_absent"] = mon_deleted_absent
 
 
+def gen_relative_case(rng):
+    """project roots and parents configured RELATIVELY to the common parent of the watch roots ('proj', 'pp'), and saves
+    of files that are no members: their paths merely begin with the same characters (proj-notes.txt, proj2/b.txt,
+    ppx/q/f.c) - no project is snapshotted for them"""
+    s = wc.Script()
+    W = wc.WATCH
+    wc.setup_world(s, wc.base_cfg(deb=rng.choice([0, 1]), project_roots=["proj"], project_parents=["pp"]))
+    s.start()
+    s.exec(3, wc.X + "/vim")
+    members = [W + "/proj/a.c", W + "/proj/src/m.c", W + "/pp/p1/f.c"]
+    others = [W + "/proj-notes.txt", W + "/proj2/b.txt", W + "/projx", W + "/pp2/q/f.c", W + "/ppx/p1/f.c", W + "/pp-old/p1/g.c", W + "/proj.bak/a.c"]
+    n = 0
+    for m in rng.sample(members, rng.randint(1, 3)):
+        n += 1
+        s.put(m, "m%d" % n)
+        s.write(3, m)
+    s.tick(2)
+    s.dump()
+    s.timeout()
+    s.dump()
+    for _ in range(rng.randint(2, 5)):
+        for f in rng.sample(others, rng.randint(1, 3)):
+            n += 1
+            s.put(f, "o%d" % n)
+            s.write(3, f)
+        s.tick(2)
+        s.dump()
+        s.timeout()
+        s.dump()
+        if rng.random() < 0.3:
+            m = rng.choice(members)
+            n += 1
+            s.put(m, "m%d" % n)
+            s.write(3, m)
+            s.tick(2)
+            s.dump()
+            s.timeout()
+            s.dump()
+    return s.text(), {}
+
+
+def mon_snapshot_needs_write(steps, meta):
+    """'when a project has been quiet ... exactly one new snapshot': a snapshot of a project appears only if a write to
+    a file BELOW ITS ROOT was accepted since its previous snapshot - saves of files elsewhere, however their names
+    begin, snapshot nothing"""
+    if meta.get("twin"):
+        return None
+    prev = None
+    since = {}       # project -> accepted writes below its root not yet covered by a snapshot
+    after_pass = {}  # project -> accepted writes since the last timeout operation
+    for st in steps:
+        if st.op == "write" and st.result == "ok" and len(st.tok) > 2 and any(l.split(" ")[1:2] == ["symlinkat"] for l in st.log):
+            rel = wk.unhexs(st.tok[2])[len(wk.CANON_ROOT):]
+            for name, root in wk.PROJECTS.items():
+                if rel.startswith(root + "/"):
+                    since[name] = since.get(name, 0) + 1
+                    after_pass[name] = after_pass.get(name, 0) + 1
+        elif st.op == "timeout":
+            after_pass = {}
+        if st.dump is None:
+            continue
+        cur = st.dump
+        if prev is not None:
+            for sdir in [p for p, e in cur.items() if e[0] == "dir" and p not in prev and wk.re.match(r"^/k/projects/[^/]+/[^/]+$", p)]:
+                name = sdir.split("/")[3]
+                if name not in wk.PROJECTS:
+                    continue
+                if not since.get(name):
+                    return ("snapshot %s of project %s appeared although no write below %s has been accepted since the project's previous snapshot"
+                            % (sdir, name, wk.PROJECTS[name]))
+                since[name] = after_pass.get(name, 0)
+        prev = cur
+    return None
+
+
+wk.MONITORS["snapshot_needs_write"] = mon_snapshot_needs_write
+
+
 def known(meta, msg):
     import vlib
     for k in vlib.known_findings().get("open", []):
@@ -252,12 +330,15 @@ def main(rep):
     for i in range(max(8, n // 25)):
         t, m = gen_vanish_case(rng)
         cases.append(("v%d" % i, t, m))
-    wk.standard_main(rep, cases=cases, monitors=["twin"] + MON + ["nested", "deleted_absent"], known=known,
+    for i in range(max(8, n // 25)):
+        t, m = gen_relative_case(rng)
+        cases.append(("r%d" % i, t, m))
+    wk.standard_main(rep, cases=cases, monitors=["twin"] + MON + ["nested", "deleted_absent", "snapshot_needs_write"], known=known,
                      rule=("a configured project root and two children of a project parent, files at depth 1-4, a loose file in the parent and a non-project "
                            "file, writes, deletions, passes, restarts, both traversal orders of the tree walk; the monitor checks every new snapshot directory: "
                            "each entry is the same inode as the latest version of that member, every versioned member that still exists is present, deleted "
-                           "ones are absent, earlier snapshots untouched; plus a project parent nested inside a project root: each child in which a file was versioned gets a snapshot of its own; plus two projects whose roots end in the same component (open finding K6); plus a project whose whole directory disappears with a snapshot pending and is later put back by something that is not versioned: files found deleted then, and not versioned since, are in no later snapshot"))
+                           "ones are absent, earlier snapshots untouched; plus a project parent nested inside a project root: each child in which a file was versioned gets a snapshot of its own; plus two projects whose roots end in the same component (open finding K6); plus a project whose whole directory disappears with a snapshot pending and is later put back by something that is not versioned: files found deleted then, and not versioned since, are in no later snapshot; plus project roots and parents given relatively, with saves of non-members whose paths begin with the same characters: a snapshot appears only after an accepted write below the project's root"))
 
 
 def replay(rep, path):
-    return wk.replay_world(rep, path, ["twin"] + MON + ["nested", "deleted_absent"])
+    return wk.replay_world(rep, path, ["twin"] + MON + ["nested", "deleted_absent", "snapshot_needs_write"])
